@@ -5,18 +5,27 @@ package bytetree
 
 // C18: a snapshot taken by Copy must not share mutable memory with the live tree: the Tree object and every copied
 // node are freshly allocated (copies_fresh), and the per-field sequence slices the copies hold must not be the live
-// tree's own slices (copies_own_data) - Tree.Update later writes n.data[i] and the sequence bytes in place.
+// tree's own slices (copies_own_data) - Tree.Update later writes n.data[i] and the sequence bytes in place. Every edge
+// hung under a copied node is a fresh edge to a fresh node (edges_fresh): no live node is reachable from the copy.
 //@ func (*Tree).Copy
 //@   requires bt != nil && bt.root != nil
 //@   modifies *
 //@   ensures fresh_tree: result != nil && fresh(result) && result.root != nil && fresh(result.root)
 //@   loop 0 invariant copies_fresh: forall k in 0..len(nodeCopies) :: nodeCopies[k] != nil && fresh(nodeCopies[k])
 //@   loop 0 invariant copies_own_data: forall k in 0..len(nodeCopies) :: obj(nodeCopies[k].data) == 0 || fresh(nodeCopies[k].data)
+//@   loop 0 invariant queued_no_edges: forall k in 0..len(nodeCopies) :: len(nodeCopies[k].edges) == 0
+//@   loop 0 invariant increasing: forall j in 0..len(nodeCopies) :: forall k in 0..len(nodeCopies) :: j < k ==> nodeCopies[j] < nodeCopies[k]
+//@   loop 0 invariant last_known: len(nodeCopies) > 0 ==> nodeCopies[len(nodeCopies)-1] != nil
 //@   loop 0 invariant same_len: len(nodes) == len(nodeCopies)
 //@   loop 0 invariant sep: obj(nodes) != obj(nodeCopies) && obj(nodes) != 0 && obj(nodeCopies) != 0
 //@   loop 0 invariant cp_fresh: cp != nil && fresh(cp) && cp.root != nil && fresh(cp.root)
 //@   loop 1 invariant copies_fresh: forall k in 0..len(nodeCopies) :: nodeCopies[k] != nil && fresh(nodeCopies[k])
 //@   loop 1 invariant copies_own_data: forall k in 0..len(nodeCopies) :: obj(nodeCopies[k].data) == 0 || fresh(nodeCopies[k].data)
+//@   loop 1 invariant queued_no_edges: forall k in 0..len(nodeCopies) :: len(nodeCopies[k].edges) == 0
+//@   loop 1 invariant increasing: forall j in 0..len(nodeCopies) :: forall k in 0..len(nodeCopies) :: j < k ==> nodeCopies[j] < nodeCopies[k]
+//@   loop 1 invariant last_known: len(nodeCopies) > 0 ==> nodeCopies[len(nodeCopies)-1] != nil
+//@   loop 1 invariant cpn_not_queued: forall k in 0..len(nodeCopies) :: cpn < nodeCopies[k]
+//@   loop 1 invariant edges_fresh: forall j in 0..len(cpn.edges) :: cpn.edges[j] != nil && fresh(cpn.edges[j]) && cpn.edges[j].target != nil && fresh(cpn.edges[j].target)
 //@   loop 1 invariant same_len: len(nodes) == len(nodeCopies)
 //@   loop 1 invariant sep: obj(nodes) != obj(nodeCopies) && obj(nodes) != 0 && obj(nodeCopies) != 0
 //@   loop 1 invariant cpn_fresh: cpn != nil && fresh(cpn)
